@@ -199,6 +199,20 @@ def type_unify(pat, ty, params):
                 return None
             sub.update(s)
         return sub
+    if pat.startswith('&') and ty.startswith('&'):
+        return type_unify(pat[1:].replace('mut ', '', 1), ty[1:].replace('mut ', '', 1), params)
+    if pat.startswith('(') and ty.startswith('(') and pat.endswith(')') and ty.endswith(')'):
+        pa = [a for a in mirparse.split_top(pat[1:-1]) if a.strip()]
+        ta = [a for a in mirparse.split_top(ty[1:-1]) if a.strip()]
+        if len(pa) != len(ta):
+            return None
+        sub = {}
+        for a, b in zip(pa, ta):
+            s_ = type_unify(a, b, params)
+            if s_ is None:
+                return None
+            sub.update(s_)
+        return sub
     if pat.startswith('[') and ty.startswith('['):
         pi, ti = pat[1:-1].split(';'), ty[1:-1].split(';')
         if len(pi) != len(ti):
